@@ -63,6 +63,7 @@ Definition V_PAIR_COMPLETE_WITHOUT_TRUST : N := 75.
 Definition V_PAIR_SPINE_NOT_EXACTLY_ONCE_IN_ORDER : N := 76.
 Definition V_PAIR_COMPLETED_AFTER_CANCEL : N := 77.
 Definition V_PAIR_ERROR_STATE_TRANSPORT_OPEN : N := 78.
+Definition V_PAIR_COMPLETED_WITH_WRONG_STORED_ID : N := 79.
 
 (* did the user cancel while the server's hello phase was waiting (states 8 / 11)? *)
 Fixpoint cancel_in_hello (cfg : pcfg) (p : pair) (ls : list label) : bool :=
@@ -87,6 +88,10 @@ Definition pair_monitor (c : pair_case) : codes :=
       (if (o_nsetc o <=? 1) && (o_nsets o <=? 1) then [] else [V_PAIR_SETUP_TWICE]) ++
       (if implb (o_compc o || o_comps o) (trust_in_labels cfg (pc_labels c)) then [] else [V_PAIR_COMPLETE_WITHOUT_TRUST]) ++
       (if (o_compc o || o_comps o) && cancel_in_hello cfg (pair_init cfg) (pc_labels c) then [V_PAIR_COMPLETED_AFTER_CANCEL] else []) ++
+      (* a side that had stored another SHIP id than the peer's never completes (PairClosure.pair_safe) *)
+      (if (o_compc o && match f_cid cfg with IdWrong => true | _ => false end)
+          || (o_comps o && match f_sid cfg with IdWrong => true | _ => false end)
+       then [V_PAIR_COMPLETED_WITH_WRONG_STORED_ID] else []) ++
       (* "a side that gives up closes the connection": the error state is never seen with the transport open *)
       (if (N.eqb (o_stc o) 39 && negb (o_closedc o)) || (N.eqb (o_sts o) 39 && negb (o_closeds o))
        then [V_PAIR_ERROR_STATE_TRANSPORT_OPEN] else []))
